@@ -166,6 +166,7 @@ type attempt struct {
 	expKey  string // snapshot id / contract id / author+id the success effects would carry
 
 	gas        uint64
+	assignee   *chain.Account
 	signers    []int
 	evidenceAt int64
 	applied    map[string]int
